@@ -24,6 +24,22 @@ def write_and_run(root, prop, v, repo_dir):
             confirmed = r.returncode == 1 and "CONFIRMED" in r.stdout
         except Exception as e:
             rec["replay"] = dict(error=str(e))
+    if not confirmed:
+        # no (reproducing) counter-model: run the native probe battery of this property on the tree under test
+        probes = os.path.join(root, "replay", "probes.py")
+        if os.path.exists(probes):
+            try:
+                r = subprocess.run(["/venv/bin/python", probes, prop, v["unit"], v["clause"], repo_dir],
+                                   capture_output=True, text=True, timeout=300, cwd="/tmp",
+                                   env=dict(os.environ, PYTHONPATH=repo_dir))
+                hit = r.returncode == 1 and "CONFIRMED" in r.stdout
+                rec["probe_battery"] = dict(rc=r.returncode, stdout=r.stdout[-2500:], stderr=r.stderr[-1500:],
+                                            note="scenarios written from the property statement, independent of the "
+                                                 "contracts; a hit is a concrete failing input on the real code, found by "
+                                                 "the battery, not by the solver")
+                confirmed = confirmed or hit
+            except Exception as e:
+                rec["probe_battery"] = dict(error=str(e))
     rec["confirmed_on_real_code"] = confirmed
     os.makedirs(os.path.dirname(path), exist_ok=True)
     with open(path, "w") as f:
